@@ -1,5 +1,6 @@
 import OrsoVerif.Lemmas.Cast
 import OrsoVerif.Lemmas.CastDecimal
+import OrsoVerif.Props.C08
 /-!
 # C07 — Casting to a column type is exact on canonical renderings
 
@@ -11,8 +12,41 @@ model: the DOUBLE theorem is stated under the hypothesis that it inverts the flo
 namespace C07
 open Cast
 
-/-- **Null gives null** for every type, parameters and `float(text)` behaviour. -/
-theorem parse_null (fot : List Char → Option UInt64) (t : Ty) : parse fot t none = .ok none := rfl
+/-- **The early `return None` of `OrsoTypes.parse`** (its test is lifted from the source on this run:
+`value is None` today): it is taken for `None` and for no other value, whatever the value's
+truthiness — `0`, `0.0`, `''`, `b''`, `False`, `Decimal(0)` reach their parser. -/
+theorem null_guard : NullFacts where
+  onNone := by unfold Gen.Cast.nullGuard; trivial
+  onlyNone := by intro f; unfold Gen.Cast.nullGuard; exact not_false
+
+/-- **Null gives null for every column type.**  The guard precedes the table dispatch, so it holds
+around *any* parser `run` (the types outside the model included: ARRAY, TIME, INTERVAL, STRUCT,
+JSONB, NULL), in particular for every modelled type and parameters; every member of the extracted
+`OrsoTypes` enum has an entry in the extracted parser and class tables, and the method dispatches
+through `ORSO_TO_PYTHON_PARSER`; a non-null value always reaches the parser. -/
+theorem parse_null :
+    (∀ run : Val → Except Exc Val, parseVia run none = .ok none) ∧
+    (∀ (fot : List Char → Option UInt64) (t : Ty), parse fot t none = .ok none) ∧
+    (∀ n ∈ Gen.Cast.typeNames, (Gen.Cast.parserOf.lookup n).isSome ∧ (Gen.Cast.pythonClass.lookup n).isSome) ∧
+    Gen.Cast.dispatchTable = "ORSO_TO_PYTHON_PARSER" ∧
+    (∀ (run : Val → Except Exc Val) (v : Val), parseVia run (some v) = (run v).bind fun r => .ok (some r)) :=
+  ⟨parseVia_none null_guard, fun fot t => parseVia_none null_guard _, by decide, rfl, parseVia_some null_guard⟩
+
+/-- **The dispatch table** `ORSO_TO_PYTHON_PARSER` (extracted on this run) sends each of the eight
+value types to its own parser, with the keywords the type carries: a swapped or dropped entry
+breaks this theorem. -/
+theorem dispatch_table (fot : List Char → Option UInt64) (t : Ty) (v : Val) :
+    parseWith fot t v =
+      match t with
+      | .boolean => parseBoolean v
+      | .integer => parseInteger v
+      | .double => parseDouble fot v
+      | .decimal p s => parseDecimal p s v
+      | .varchar n => parseVarchar n v
+      | .blob n => parseBlob n v
+      | .date => parseTemporal .date v
+      | .timestamp => parseTemporal .timestamp v := by
+  cases t <;> rfl
 
 /-- **Booleans per the documented truthy words**: the seven documented words (pinned here) are
 in the extracted table for text and for bytes; every text entry of the extracted
@@ -31,17 +65,29 @@ theorem bool_roundtrip :
   decide
 
 /-- **Integers of any size**: the decimal rendering of every integer (up to CPython's
-4300-digit limit for `int`/`str` conversion) casts back to that integer, and an `int` casts to itself. -/
+4300-digit limit for `int`/`str` conversion) casts back to that integer — as text and as the
+(ASCII) bytes that spell it — and an `int` casts to itself. -/
 theorem int_roundtrip (n : Int) (h : (Nat.toDigits 10 n.natAbs).length ≤ Iso.maxStrDigits) :
-    parseInteger (.str (renderInt n)) = .ok (.int n) ∧ parseInteger (.int n) = .ok (.int n) := by
-  refine ⟨?_, rfl⟩
-  simp only [parseInteger, pyInt_renderInt n h, liftIso, Cast.bind_ok]
+    parseInteger (.str (renderInt n)) = .ok (.int n) ∧ parseInteger (.int n) = .ok (.int n) ∧
+    parseInteger (.bytes (asciiBytes (renderInt n))) = .ok (.int n) := by
+  refine ⟨?_, rfl, ?_⟩
+  · simp only [parseInteger, pyInt_renderInt n h, liftIso, Cast.bind_ok]
+  · simp only [parseInteger, asciiBytes_all _ (renderInt_ascii n), if_true,
+      asciiChars_asciiBytes _ (renderInt_ascii n), pyInt_renderInt n h, liftIso, Cast.bind_ok]
 
-/-- **Floats via their repr** — under the parameter that `float(text)` inverts the rendering `rep`. -/
+/-- **Floats via their repr.**  `parse_double` is `float(x)`; the text-to-float function `fot`
+and the rendering `rep` (`repr`) are parameters.  ASSUMED, exactly: `∀ f, fot (rep f) = some f`
+(CPython: `float(repr(f))` gives `f` back, bit for bit; NaN as the canonical NaN).  PROVED from
+it: the text rendering casts to `f`; so does its ASCII bytes rendering (bytes are read as the text
+they spell); a float casts to itself with every bit kept (NaN payloads, `-0.0`). -/
 theorem double_roundtrip (fot : List Char → Option UInt64) (rep : UInt64 → List Char)
     (hparam : ∀ f, fot (rep f) = some f) (f : UInt64) :
-    parseDouble fot (.str (rep f)) = .ok (.float f) ∧ parseDouble fot (.float f) = .ok (.float f) := by
-  simp [parseDouble, hparam]
+    parseDouble fot (.str (rep f)) = .ok (.float f) ∧ parseDouble fot (.float f) = .ok (.float f) ∧
+    ((∀ c ∈ rep f, c.toNat < 128) →
+      parseDouble fot (.bytes (asciiBytes (rep f))) = .ok (.float f)) := by
+  refine ⟨by simp [parseDouble, hparam], rfl, ?_⟩
+  intro hascii
+  simp only [parseDouble, asciiBytes_all _ hascii, if_true, asciiChars_asciiBytes _ hascii, hparam]
 
 /-- **The generated `if length:` tests and `[:length]` slices** of `parse_varchar` and
 `parse_bytes` (expressions lifted from the source on this run): length 0 is "no limit", a positive
@@ -79,6 +125,10 @@ theorem blob_prefix (b : List UInt8) (n : Option Nat) :
        | some (k + 1) => r.length ≤ k + 1 ∧ ∀ q, q <+: b → q.length ≤ k + 1 → q <+: r) := by
   exact ⟨limitBlob n b, rfl, limitWith_prefix _ _ _ _, limitWith_longest limit_expressions.2 n b⟩
 
+/-- Text cast to BLOB is the cast of its UTF-8 bytes. -/
+theorem blob_utf8 (s : List Char) (n : Option Nat) :
+    parseBlob n (.str s) = parseBlob n (.bytes (utf8 s)) := rfl
+
 /-- **Arrays element-wise with nulls kept** (`parseArray` is written from the comprehension
 `[parser(v) for v in x]`, `parser = element_type.parse`, whose source text is extracted and pinned here): the result has the same length, `null` stays `null`
 at its position and every other element is the element type's cast of that element; if any
@@ -89,7 +139,7 @@ theorem array_elementwise (fot : List Char → Option UInt64) (t : Ty) (xs : Lis
       rs.length = xs.length ∧
       ∀ i (h : i < xs.length) (h' : i < rs.length), parse fot t xs[i] = .ok rs[i] ∧ (xs[i] = none → rs[i] = none)) ∧
     ((∃ x ∈ xs, ∃ e, parse fot t x = .error e) → ∃ e, parseArray fot (some t) xs = .error e) :=
-  ⟨⟨rfl, rfl⟩, fun rs h => parseArray_spec fot t xs rs h, parseArray_raises fot t xs⟩
+  ⟨⟨rfl, rfl⟩, fun rs h => parseArray_spec null_guard fot t xs rs h, parseArray_raises fot t xs⟩
 
 /-- **DATE / TIMESTAMP reuse the C08 parser**: already-typed values are kept (timestamps to whole
 seconds), a date casts to its midnight. -/
@@ -103,6 +153,7 @@ theorem temporal_identity (y m d : Nat) (dt : Iso.DateTime) :
 value returns one whose class is the one `ORSO_TO_PYTHON_MAP` (extracted) gives for the type. -/
 theorem result_class (fot : List Char → Option UInt64) (t : Ty) (v : Val) (r : Val)
     (h : parseWith fot t v = .ok r) : r.cls = t.cls := by
+  rw [dispatch_table] at h
   cases t with
   | boolean => exact parseBoolean_cls v r h
   | integer => exact parseInteger_cls v r h
@@ -112,6 +163,53 @@ theorem result_class (fot : List Char → Option UInt64) (t : Ty) (v : Val) (r :
   | blob n => exact parseBlob_cls n v r h
   | date => exact parseTemporal_cls .date v r h (by decide)
   | timestamp => exact parseTemporal_cls .timestamp v r h (by decide)
+
+/-- **Arrays of them**: every non-null element of the result of an array cast has the element
+type's class; and an array whose elements each cast to themselves (already-typed values, nulls)
+casts to itself. -/
+theorem array_result_class (fot : List Char → Option UInt64) (t : Ty) (xs rs : List (Option Val))
+    (h : parseArray fot (some t) xs = .ok rs) :
+    (∀ r, some r ∈ rs → r.cls = t.cls) ∧
+    ((∀ x ∈ xs, parse fot t x = .ok x) → rs = xs) := by
+  obtain ⟨hl, hi⟩ := parseArray_spec null_guard fot t xs rs h
+  refine ⟨?_, fun hid => ?_⟩
+  · intro r hr
+    obtain ⟨i, hi', e⟩ := List.getElem_of_mem hr
+    obtain ⟨h1, _⟩ := hi i (by omega) hi'
+    rw [e] at h1
+    cases hx : xs[i]'(by omega) with
+    | none => rw [hx, parse, parseVia_none null_guard] at h1; cases h1
+    | some v =>
+      rw [hx, parse, parseVia_some null_guard] at h1
+      cases hw : parseWith fot t v with
+      | error e' => rw [hw] at h1; cases h1
+      | ok r' =>
+        rw [hw] at h1
+        have : r' = r := by simpa [Except.bind, bind] using h1
+        subst this
+        exact result_class fot t v r' hw
+  · rw [parseArray_identity fot t xs hid] at h
+    cases h; rfl
+
+/-- **DATE / TIMESTAMP from their canonical renderings** (through C08's `iso_roundtrip` /
+`date_form`): `isoformat()` of a valid date-time — separator `T` or space, any number of fraction
+digits — casts back to it in whole seconds; `isoformat()` of a valid date casts back to the date;
+the UTF-8 bytes of any text cast like the text. -/
+theorem temporal_text_roundtrip (dt : Iso.DateTime) (hv : Iso.validDateTime dt = true) (sep : Char)
+    (hsep : sep = 'T' ∨ sep = ' ') (k : Nat) (y m d : Nat) (hd : Iso.validDate y m d = true) :
+    parseTemporal .timestamp (.str (Iso.render dt sep k .none)) = .ok (.datetime (Iso.truncSeconds dt)) ∧
+    parseTemporal .date (.str (Iso.renderDate y m d)) = .ok (.date y m d) ∧
+    (∀ (kind : Iso.CastKind) (s : String),
+      parseTemporal kind (.bytes s.toUTF8.data.toList) = parseTemporal kind (.str s.toList)) := by
+  refine ⟨?_, ?_, ?_⟩
+  · have h := C08.iso_roundtrip dt hv sep hsep k .none
+    simp only [parseTemporal, isoInput, Iso.cast, h]
+  · have h := C08.date_form y m d hd .none rfl
+    simp only [Iso.Suffix.text, List.append_nil] at h
+    simp only [parseTemporal, isoInput, Iso.cast, h]
+  · intro kind s
+    have h := C08.utf8_bytes_as_text s
+    cases kind <;> simp only [parseTemporal, isoInput, Iso.cast, h]
 
 /-- **The generated factory expressions** (`decimal.Context(prec=…)`, `safe_scale = …`,
 `Decimal(10) ** …`, lifted from `DecimalFactory.__call__` on this run) cover the statement: the
@@ -144,6 +242,22 @@ theorem decimal_exact (p s : Nat) (neg : Bool) (c : Nat) (e : Int) (hp : 1 ≤ p
   simp only [parseDecimal, Option.getD_some]
   rw [factory_text factory_expressions p s (stripD t) hnd _ ht hp]
   exact h1
+
+/-- **Every declared scale, the boundaries 28 / 29 / 38 included.**  With `q = min s 28` (the cap
+lifted from `safe_scale = …` on this run), a decimal whose exponent is at least `-q` and which
+fits `p` digits at `q` places is returned exactly, quantised to `q` places — for `s ≤ 28` this is
+`decimal_exact`, for `29 ≤ s ≤ 38` the cast keeps 28 places.  Holds for every `p ≥ 1`
+(in particular 28, 29 and 38: the context precision is the declared precision, not CPython's
+default 28). -/
+theorem decimal_exact_scale_cap (p s : Nat) (neg : Bool) (c : Nat) (e : Int) (hp : 1 ≤ p)
+    (he : -((min s 28 : Nat) : Int) ≤ e) (hc : numDigits c ≤ p)
+    (hd : numDigits (c * 10 ^ (e + (min s 28 : Nat)).toNat) ≤ p) :
+    (∀ s : Nat, Gen.Cast.quantExp (Gen.Cast.quantScale s) = -((min s 28 : Nat) : Int)) ∧
+    parseDecimal (some p) (some s) (.dec (.fin neg c e))
+      = .ok (.dec (.fin neg (c * 10 ^ (e + (min s 28 : Nat)).toNat) (-((min s 28 : Nat) : Int)))) := by
+  have hcap : ∀ s : Nat, Gen.Cast.quantExp (Gen.Cast.quantScale s) = -((min s 28 : Nat) : Int) := by
+    intro s; unfold Gen.Cast.quantExp Gen.Cast.quantScale; omega
+  exact ⟨hcap, factory_fits_cap factory_expressions hcap p s neg c e hp he hc hd⟩
 
 /-- **Casting the result again changes nothing** (idempotence on already-typed decimals that are
 quantised to the column's scale and fit its precision). -/
@@ -252,6 +366,15 @@ example : parseDecimal (some 5) (some 2) (.str "123.456".toList) = .ok (.dec (.f
 /-- does not fit: the `InvalidOperation` fallback returns the rounded, unquantised value -/
 example : parseDecimal (some 5) (some 2) (.str "123456".toList) = .ok (.dec (.fin false 12346 1)) := by decide
 example : parseDecimal (some 5) (some 2) (.str "abc".toList) = .error .invalidOperation := by decide
+/-- scale above the cap: 28 places are kept; precision 38 keeps 38 digits -/
+example : parseDecimal (some 38) (some 30) (.str "1.5".toList) = .ok (.dec (.fin false (15 * 10 ^ 27) (-28))) := by decide
+example : parseDecimal (some 38) (some 0) (.str "12345678901234567890123456789012345678".toList)
+    = .ok (.dec (.fin false 12345678901234567890123456789012345678 0)) := by decide
+/-- falsy values are not null: they reach their parser -/
+example : parse (fun _ => none) .integer (some (.int 0)) = .ok (some (.int 0)) := by decide
+example : parse (fun _ => none) (.varchar (some 3)) (some (.str [])) = .ok (some (.str [])) := by decide
+example : parseArray (fun _ => none) (some .integer) [some (.str "12".toList), none, some (.int 0)]
+    = .ok [some (.int 12), none, some (.int 0)] := by decide
 example : String.ofList (renderDec (.fin true 15 (-1))) = "-1.5" ∧ String.ofList (renderDec (.fin false 1 2)) = "1E+2"
     ∧ String.ofList (renderDec (.fin false 12 (-9))) = "1.2E-8" ∧ String.ofList (renderDec (.fin false 5 (-6))) = "0.000005" := by
   decide
